@@ -1,6 +1,721 @@
-//! C13 (stub)
+//! C13 — signed integers behave as two's-complement mathematical integers.
+//!
+//! Oracle: `BigInt` arithmetic. An `Int<L>` input is produced from a bit pattern (BigUint below
+//! 2^BITS, generated from the limb alphabet) read in two's complement, so that MIN, MIN+1, -1, 0, 1,
+//! MAX, MAX-1 all appear; the corpus adds sums/differences/products exactly at and next to the
+//! boundaries of [MIN, MAX], a = -b, +-2^(BITS/2), magnitudes 2^(BITS-1) with either sign.
+//! Wrapping forms: result mod 2^BITS read in two's complement. Checked/overflowing forms: overflow
+//! exactly when the true result is outside [MIN, MAX] of the documented result type. Operators
+//! (`+ - *` on `Int`) are documented by their `expect` messages to panic on overflow: asserted
+//! with `must_panic!` exactly then. Division (C14) and shifts (C05) are not covered here.
+
 use super::prelude::*;
+use crypto_bigint::{
+    Bounded, Checked, CheckedAdd, CheckedMul, CheckedSub, ConcatMixed, Constants, I64, I128, Wrapping, WrappingAdd,
+    WrappingSub,
+};
+use num_bigint::Sign;
+use num_traits::Signed;
+
+// ---------------------------------------------------------------- corpus
+
+fn big(x: &BigUint) -> BigInt {
+    BigInt::from(x.clone())
+}
+
+/// two's complement reading of a bit pattern
+fn tc(x: &BigUint, bits: u32) -> BigInt {
+    wrap_signed(&big(x), bits)
+}
+
+/// magnitude of a BigInt
+fn mag(x: &BigInt) -> BigUint {
+    x.magnitude().clone()
+}
+
+fn neg_of(x: &BigInt) -> bool {
+    x.sign() == Sign::Minus
+}
+
+/// The values the quantifier of C13 names, for a signed width (all inside [MIN, MAX]).
+fn specials(bits: u32) -> Vec<BigInt> {
+    let (mn, mx) = (smin(bits), smax(bits));
+    let h = big(&pow2(bits / 2));
+    let hh = big(&pow2(bits / 2 - 1));
+    let q = big(&pow2(bits - 2));
+    // floor(sqrt(2^(BITS-1))): squares next to the signed boundary
+    let r = big(&isqrt(&pow2(bits - 1)));
+    let mut v = vec![
+        mn.clone(),
+        &mn + 1,
+        &mn + 2,
+        BigInt::from(-2),
+        BigInt::from(-1),
+        BigInt::zero(),
+        BigInt::one(),
+        BigInt::from(2),
+        BigInt::from(3),
+        BigInt::from(-3),
+        mx.clone(),
+        &mx - 1,
+        &mx - 2,
+    ];
+    for base in [h, hh, q, r, big(&pow2(63)), big(&pow2(64)), big(&pow2(32))] {
+        for d in [-1i32, 0, 1] {
+            v.push(&base + d);
+            v.push(-(&base + d));
+        }
+    }
+    // half of the extremes
+    v.push(&mn / 2);
+    v.push(&mn / 2 - 1);
+    v.push(&mn / 2 + 1);
+    v.push(&mx / 2);
+    v.push(&mx / 2 + 1);
+    v.retain(|x| fits_signed(x, bits));
+    v.sort();
+    v.dedup();
+    v
+}
+
+/// MIN, MIN+1, MIN+2, -3..3, MAX-2, MAX-1, MAX
+fn core(bits: u32) -> Vec<BigInt> {
+    let (mn, mx) = (smin(bits), smax(bits));
+    let mut v = vec![mn.clone(), &mn + 1, &mn + 2, mx.clone(), &mx - 1, &mx - 2];
+    v.extend((-3..=3).map(BigInt::from));
+    v
+}
+
+/// Unary corpus: bit patterns of the generic corpus read in two's complement + the special values.
+fn sinputs1(c: &mut Ctx, l: usize) -> Vec<BigInt> {
+    let bits = 64 * l as u32;
+    let mut v: Vec<BigInt> = c.inputs1(l).iter().map(|x| tc(x, bits)).collect();
+    v.extend(specials(bits));
+    v
+}
+
+/// Binary corpus for `Int<l1> op Int<l2>` (or `Int<l1> op Uint<l2>` when `urhs`): returns
+/// mathematical values (a, b) with a in the signed range of l1 limbs and b in the (un)signed
+/// range of l2 limbs. `tb` is the bit width of the *result* type: sums, differences and products
+/// exactly at / next to the boundaries of the signed `tb`-bit range are added.
+fn spairs(c: &mut Ctx, l1: usize, l2: usize, tb: u32, urhs: bool) -> Vec<(BigInt, BigInt)> {
+    let (b1, b2) = (64 * l1 as u32, 64 * l2 as u32);
+    let in1 = |x: &BigInt| fits_signed(x, b1);
+    let in2 = |x: &BigInt| if urhs { !neg_of(x) && fits(&mag(x), b2) } else { fits_signed(x, b2) };
+    let rd2 = |x: &BigUint| if urhs { big(x) } else { tc(x, b2) };
+    let mut v: Vec<(BigInt, BigInt)> = c.inputs2(l1, l2).iter().map(|(a, b)| (tc(a, b1), rd2(b))).collect();
+    // special x special: the core values (MIN.., -1, 0, 1, .., MAX) against every special value, both
+    // ways, plus each special value against itself and its negation
+    let un2 = |x: &BigInt| if urhs && neg_of(x) { big(&wrap_unsigned(x, b2)) } else { x.clone() };
+    let mut s1 = specials(b1);
+    let mut s2: Vec<BigInt> = specials(b2).iter().map(un2).collect();
+    if tb != b1 {
+        s1.extend(specials(tb));
+    }
+    if tb != b2 {
+        s2.extend(specials(tb));
+    }
+    let (k1, k2) = (core(b1), core(b2));
+    let mut sp: Vec<(BigInt, BigInt)> = Vec::new();
+    for a in &s1 {
+        for b in &k2 {
+            sp.push((a.clone(), un2(b)));
+            sp.push((a.clone(), b.clone()));
+        }
+        sp.push((a.clone(), a.clone()));
+        sp.push((a.clone(), -a));
+    }
+    for b in &s2 {
+        for a in &k1 {
+            sp.push((a.clone(), b.clone()));
+        }
+    }
+    sp.retain(|(a, b)| in1(a) && in2(b));
+    sp.sort();
+    sp.dedup();
+    v.extend(sp);
+    let (tmin, tmax) = (smin(tb), smax(tb));
+    let rounds = 64 + c.iters / 4;
+    for round in 0..rounds {
+        // a = -b, a = b, a = -b +- 1
+        let a = tc(&c.rnd(l1), b1);
+        for b in [-&a, a.clone(), -&a + 1, -&a - 1] {
+            if in2(&b) {
+                v.push((a.clone(), b));
+            }
+        }
+        // a + b and a - b at MAX, MAX+1, MIN, MIN-1 of the target width
+        for t in [tmax.clone(), &tmax + 1, tmin.clone(), &tmin - 1, &tmax - 1, &tmin + 1] {
+            for b in [&t - &a, &a - &t] {
+                if in2(&b) {
+                    v.push((a.clone(), b));
+                }
+            }
+        }
+        // a * b at +-2^(tb-1), +-(2^(tb-1) - 1) and the nearest products on both sides
+        let hb = pow2(tb - 1);
+        let d = {
+            let k = 1 + c.below(tb as usize - 1) as u32; // 1..tb-1 bits
+            let x = match round % 4 {
+                0 => pow2(k - 1),
+                1 => mask(k),
+                _ => (c.rnd(l1.max(l2)) & mask(k)) | pow2(k - 1),
+            };
+            if x.is_zero() { BigUint::one() } else { x }
+        };
+        let q = &hb / &d;
+        let q2 = (&hb - 1u32) / &d;
+        let mut qs = vec![q.clone(), &q + 1u32, q2.clone(), &q2 + 1u32];
+        if !q.is_zero() {
+            qs.push(&q - 1u32);
+        }
+        for qq in qs {
+            for (sa, sb) in [(1, 1), (-1, 1), (1, -1), (-1, -1)] {
+                let (x, y) = (big(&qq) * sa, big(&d) * sb);
+                if in1(&x) && in2(&y) {
+                    v.push((x.clone(), y.clone()));
+                }
+                if in1(&y) && in2(&x) {
+                    v.push((y, x));
+                }
+            }
+        }
+    }
+    // exact powers of two: 2^i * 2^(tb-1-i) with every sign combination
+    for i in 0..tb {
+        let (x, y) = (big(&pow2(i)), big(&pow2(tb - 1 - i)));
+        for (sa, sb) in [(1, 1), (-1, 1), (1, -1), (-1, -1)] {
+            let (x, y) = (&x * sa, &y * sb);
+            if in1(&x) && in2(&y) {
+                v.push((x, y));
+            }
+        }
+    }
+    v
+}
+
+fn chk(x: &BigInt, bits: u32) -> Option<BigInt> {
+    if fits_signed(x, bits) { Some(x.clone()) } else { None }
+}
+
+fn some_i<const L: usize>(x: Option<Int<L>>) -> Option<BigInt> {
+    x.map(|v| ib(&v))
+}
+
+// ---------------------------------------------------------------- add
+
+fn add<const L: usize>(c: &mut Ctx) {
+    let bits = 64 * L as u32;
+    for (a, b) in spairs(c, L, L, bits, false) {
+        if c.done() {
+            return;
+        }
+        let (x, y) = (bi::<L>(&a), bi::<L>(&b));
+        let s = &a + &b;
+        let w = wrap_signed(&s, bits);
+        let ovf = !fits_signed(&s, bits);
+        let ck = chk(&s, bits);
+        check!(c, call(|| copt(x.checked_add(&y))).map(some_i), ck.clone(); a, b);
+        check!(c, call(|| x.overflowing_add(&y)).map(|(v, o)| (ib(&v), ccb(o))), (w.clone(), ovf); a, b);
+        check!(c, call(|| x.wrapping_add(&y)).map(|v| ib(&v)), w.clone(); a, b);
+        check!(c, call(|| opt(CheckedAdd::checked_add(&x, &y))).map(some_i), ck.clone(); a, b);
+        check!(c, call(|| WrappingAdd::wrapping_add(&x, &y)).map(|v| ib(&v)), w.clone(); a, b);
+        // operators: "attempted to add with overflow"
+        if ovf {
+            must_panic!(c, call(|| x + y); a, b);
+            must_panic!(c, call(|| x + &y); a, b);
+            must_panic!(c, call(|| { let mut t = x; t += y; t }); a, b);
+            must_panic!(c, call(|| { let mut t = x; t += &y; t }); a, b);
+        } else {
+            check!(c, call(|| x + y).map(|v| ib(&v)), s.clone(); a, b);
+            check!(c, call(|| x + &y).map(|v| ib(&v)), s.clone(); a, b);
+            check!(c, call(|| { let mut t = x; t += y; t }).map(|v| ib(&v)), s.clone(); a, b);
+            check!(c, call(|| { let mut t = x; t += &y; t }).map(|v| ib(&v)), s.clone(); a, b);
+        }
+        let (wx, wy) = (Wrapping(x), Wrapping(y));
+        check!(c, call(|| wx + wy).map(|v| ib(&v.0)), w.clone(); a, b);
+        check!(c, call(|| wx + &wy).map(|v| ib(&v.0)), w.clone(); a, b);
+        check!(c, call(|| &wx + wy).map(|v| ib(&v.0)), w.clone(); a, b);
+        check!(c, call(|| &wx + &wy).map(|v| ib(&v.0)), w.clone(); a, b);
+        check!(c, call(|| { let mut t = wx; t += wy; t }).map(|v| ib(&v.0)), w.clone(); a, b);
+        check!(c, call(|| { let mut t = wx; t += &wy; t }).map(|v| ib(&v.0)), w.clone(); a, b);
+        let (cx, cy) = (Checked::new(x), Checked::new(y));
+        check!(c, call(|| opt((cx + cy).0)).map(some_i), ck.clone(); a, b);
+        check!(c, call(|| opt((cx + &cy).0)).map(some_i), ck.clone(); a, b);
+        check!(c, call(|| opt((&cx + cy).0)).map(some_i), ck.clone(); a, b);
+        check!(c, call(|| opt((&cx + &cy).0)).map(some_i), ck.clone(); a, b);
+        check!(c, call(|| { let mut t = cx; t += cy; opt(t.0) }).map(some_i), ck.clone(); a, b);
+        check!(c, call(|| { let mut t = cx; t += &cy; opt(t.0) }).map(some_i), ck.clone(); a, b);
+        // a failed operand stays failed
+        let none: Option<BigInt> = None;
+        let bad = Checked(CtOption::new(x, Choice::from(0)));
+        check!(c, call(|| opt((bad + cy).0)).map(some_i), none.clone(); a, b);
+        check!(c, call(|| opt((cy + bad).0)).map(some_i), none; a, b);
+    }
+}
+
+// ---------------------------------------------------------------- sub
+
+fn sub<const L: usize>(c: &mut Ctx) {
+    let bits = 64 * L as u32;
+    for (a, b) in spairs(c, L, L, bits, false) {
+        if c.done() {
+            return;
+        }
+        let (x, y) = (bi::<L>(&a), bi::<L>(&b));
+        let s = &a - &b;
+        let w = wrap_signed(&s, bits);
+        let ovf = !fits_signed(&s, bits);
+        let ck = chk(&s, bits);
+        check!(c, call(|| opt(CheckedSub::checked_sub(&x, &y))).map(some_i), ck.clone(); a, b);
+        check!(c, call(|| WrappingSub::wrapping_sub(&x, &y)).map(|v| ib(&v)), w.clone(); a, b);
+        // operators: "attempted to subtract with underflow"
+        if ovf {
+            must_panic!(c, call(|| x - y); a, b);
+            must_panic!(c, call(|| x - &y); a, b);
+        } else {
+            check!(c, call(|| x - y).map(|v| ib(&v)), s.clone(); a, b);
+            check!(c, call(|| x - &y).map(|v| ib(&v)), s.clone(); a, b);
+        }
+        let (wx, wy) = (Wrapping(x), Wrapping(y));
+        check!(c, call(|| wx - wy).map(|v| ib(&v.0)), w.clone(); a, b);
+        check!(c, call(|| wx - &wy).map(|v| ib(&v.0)), w.clone(); a, b);
+        check!(c, call(|| &wx - wy).map(|v| ib(&v.0)), w.clone(); a, b);
+        check!(c, call(|| &wx - &wy).map(|v| ib(&v.0)), w.clone(); a, b);
+        check!(c, call(|| { let mut t = wx; t -= wy; t }).map(|v| ib(&v.0)), w.clone(); a, b);
+        check!(c, call(|| { let mut t = wx; t -= &wy; t }).map(|v| ib(&v.0)), w.clone(); a, b);
+        let (cx, cy) = (Checked::new(x), Checked::new(y));
+        check!(c, call(|| opt((cx - cy).0)).map(some_i), ck.clone(); a, b);
+        check!(c, call(|| opt((cx - &cy).0)).map(some_i), ck.clone(); a, b);
+        check!(c, call(|| opt((&cx - cy).0)).map(some_i), ck.clone(); a, b);
+        check!(c, call(|| opt((&cx - &cy).0)).map(some_i), ck.clone(); a, b);
+        check!(c, call(|| { let mut t = cx; t -= cy; opt(t.0) }).map(some_i), ck.clone(); a, b);
+        check!(c, call(|| { let mut t = cx; t -= &cy; opt(t.0) }).map(some_i), ck.clone(); a, b);
+        let none: Option<BigInt> = None;
+        let bad = Checked(CtOption::new(x, Choice::from(0)));
+        check!(c, call(|| opt((bad - cy).0)).map(some_i), none.clone(); a, b);
+        check!(c, call(|| opt((cy - bad).0)).map(some_i), none; a, b);
+    }
+}
+
+// ---------------------------------------------------------------- neg
+
+fn neg<const L: usize>(c: &mut Ctx) {
+    let bits = 64 * L as u32;
+    for a in sinputs1(c, L) {
+        if c.done() {
+            return;
+        }
+        let x = bi::<L>(&a);
+        let n = -&a;
+        let w = wrap_signed(&n, bits);
+        let ovf = !fits_signed(&n, bits); // exactly a == MIN
+        check!(c, call(|| x.overflowing_neg()).map(|(v, o)| (ib(&v), ccb(o))), (w.clone(), ovf); a);
+        check!(c, call(|| x.wrapping_neg()).map(|v| ib(&v)), w.clone(); a);
+        check!(c, call(|| copt(x.checked_neg())).map(some_i), chk(&n, bits); a);
+        check!(c, call(|| x.wrapping_neg_if(ConstChoice::TRUE)).map(|v| ib(&v)), w.clone(); a);
+        check!(c, call(|| x.wrapping_neg_if(ConstChoice::FALSE)).map(|v| ib(&v)), a.clone(); a);
+    }
+}
+
+// ---------------------------------------------------------------- mul (Int x Int)
+
+/// `negate` of the split forms: must be set for a negative product and clear for a positive one;
+/// for a zero product the documentation allows either.
+fn negate_ok(p: &BigInt, negate: bool) -> bool {
+    match p.sign() {
+        Sign::Minus => negate,
+        Sign::Plus => !negate,
+        Sign::NoSign => true,
+    }
+}
+
+fn mul<const L: usize, const R: usize>(c: &mut Ctx) {
+    let bits = 64 * L as u32;
+    for (a, b) in spairs(c, L, R, bits, false) {
+        if c.done() {
+            return;
+        }
+        let (x, y) = (bi::<L>(&a), bi::<R>(&b));
+        let p = &a * &b;
+        let ck = chk(&p, bits);
+        // split_mul: magnitude = lo + hi * 2^(64 L), lo: Uint<L>, hi: Uint<R>
+        let m = mag(&p);
+        let got = call(|| x.split_mul(&y)).map(|(lo, hi, n)| (ub(&lo), ub(&hi), ccb(n)));
+        let negate = got.as_ref().map(|g| g.2).unwrap_or(false);
+        check!(c, got.map(|g| (g.0, g.1)), (&m & mask(bits), &m >> (bits as usize)); a, b);
+        let _ = holds!(c, negate_ok(&p, negate), "split_mul: negate == (product < 0) unless the product is zero"; a, b, negate);
+        check!(c, call(|| opt(CheckedMul::checked_mul(&x, &y))).map(some_i), ck.clone(); a, b);
+        // operators: "attempted to multiply with overflow"
+        if ck.is_none() {
+            must_panic!(c, call(|| x * y); a, b);
+            must_panic!(c, call(|| x * &y); a, b);
+            must_panic!(c, call(|| &x * y); a, b);
+            must_panic!(c, call(|| &x * &y); a, b);
+        } else {
+            check!(c, call(|| x * y).map(|v| ib(&v)), p.clone(); a, b);
+            check!(c, call(|| x * &y).map(|v| ib(&v)), p.clone(); a, b);
+            check!(c, call(|| &x * y).map(|v| ib(&v)), p.clone(); a, b);
+            check!(c, call(|| &x * &y).map(|v| ib(&v)), p.clone(); a, b);
+        }
+    }
+}
+
+fn checked_wrapper_mul<const L: usize>(c: &mut Ctx) {
+    let bits = 64 * L as u32;
+    for (a, b) in spairs(c, L, L, bits, false) {
+        if c.done() {
+            return;
+        }
+        let (x, y) = (bi::<L>(&a), bi::<L>(&b));
+        let ck = chk(&(&a * &b), bits);
+        let (cx, cy) = (Checked::new(x), Checked::new(y));
+        check!(c, call(|| opt((cx * cy).0)).map(some_i), ck.clone(); a, b);
+        check!(c, call(|| opt((cx * &cy).0)).map(some_i), ck.clone(); a, b);
+        check!(c, call(|| opt((&cx * cy).0)).map(some_i), ck.clone(); a, b);
+        check!(c, call(|| opt((&cx * &cy).0)).map(some_i), ck.clone(); a, b);
+        check!(c, call(|| { let mut t = cx; t *= cy; opt(t.0) }).map(some_i), ck.clone(); a, b);
+        check!(c, call(|| { let mut t = cx; t *= &cy; opt(t.0) }).map(some_i), ck.clone(); a, b);
+        let none: Option<BigInt> = None;
+        let bad = Checked(CtOption::new(x, Choice::from(0)));
+        check!(c, call(|| opt((bad * cy).0)).map(some_i), none.clone(); a, b);
+        check!(c, call(|| opt((cy * bad).0)).map(some_i), none; a, b);
+    }
+}
+
+fn widening_mul<const L: usize, const R: usize, const W: usize>(c: &mut Ctx)
+where
+    Uint<L>: ConcatMixed<Uint<R>, MixedOutput = Uint<W>>,
+{
+    // boundaries of both operand widths are interesting for the magnitudes; the result always fits
+    for (a, b) in spairs(c, L, R, 64 * L.max(R) as u32, false) {
+        if c.done() {
+            return;
+        }
+        let (x, y) = (bi::<L>(&a), bi::<R>(&b));
+        check!(c, call(|| x.widening_mul(&y)).map(|v: Int<W>| ib(&v)), &a * &b; a, b);
+    }
+}
+
+// ---------------------------------------------------------------- mul (Int x Uint)
+
+fn mul_uint<const L: usize, const R: usize>(c: &mut Ctx) {
+    let (lbits, rbits) = (64 * L as u32, 64 * R as u32);
+    // products at the boundary of Int<L> (checked_mul) and of Int<R> (checked_mul_uint_right)
+    let mut pairs = c.scaled(2, |c| spairs(c, L, R, lbits, true));
+    if R != L {
+        pairs.extend(c.scaled(2, |c| spairs(c, L, R, rbits, true)));
+    }
+    for (a, b) in pairs {
+        if c.done() {
+            return;
+        }
+        let b = mag(&b);
+        let (x, y) = (bi::<L>(&a), bu::<R>(&b));
+        let p = &a * big(&b);
+        let m = mag(&p);
+        // split_mul_uint: lo: Uint<L>, hi: Uint<R>
+        let got = call(|| x.split_mul_uint(&y)).map(|(lo, hi, n)| (ub(&lo), ub(&hi), ccb(n)));
+        let negate = got.as_ref().map(|g| g.2).unwrap_or(false);
+        check!(c, got.map(|g| (g.0, g.1)), (&m & mask(lbits), &m >> (lbits as usize)); a, b);
+        let _ = holds!(c, negate_ok(&p, negate), "split_mul_uint: negate == (product < 0) unless the product is zero"; a, b, negate);
+        // split_mul_uint_right: lo: Uint<R>, hi: Uint<L>
+        let got = call(|| x.split_mul_uint_right(&y)).map(|(lo, hi, n)| (ub(&lo), ub(&hi), ccb(n)));
+        let negate = got.as_ref().map(|g| g.2).unwrap_or(false);
+        check!(c, got.map(|g| (g.0, g.1)), (&m & mask(rbits), &m >> (rbits as usize)); a, b);
+        let _ = holds!(c, negate_ok(&p, negate), "split_mul_uint_right: negate == (product < 0) unless the product is zero"; a, b, negate);
+        // checked forms: result type Int<L> / Int<R>
+        let ck = chk(&p, lbits);
+        check!(c, call(|| opt(CheckedMul::checked_mul(&x, &y))).map(some_i), ck.clone(); a, b);
+        check!(c, call(|| opt(x.checked_mul_uint_right(&y))).map(some_i), chk(&p, rbits); a, b);
+        if ck.is_none() {
+            must_panic!(c, call(|| x * y); a, b);
+            must_panic!(c, call(|| x * &y); a, b);
+            must_panic!(c, call(|| &x * y); a, b);
+            must_panic!(c, call(|| &x * &y); a, b);
+        } else {
+            check!(c, call(|| x * y).map(|v| ib(&v)), p.clone(); a, b);
+            check!(c, call(|| x * &y).map(|v| ib(&v)), p.clone(); a, b);
+            check!(c, call(|| &x * y).map(|v| ib(&v)), p.clone(); a, b);
+            check!(c, call(|| &x * &y).map(|v| ib(&v)), p.clone(); a, b);
+        }
+    }
+}
+
+fn widening_mul_uint<const L: usize, const R: usize, const W: usize>(c: &mut Ctx)
+where
+    Uint<L>: ConcatMixed<Uint<R>, MixedOutput = Uint<W>>,
+{
+    for (a, b) in spairs(c, L, R, 64 * L.max(R) as u32, true) {
+        if c.done() {
+            return;
+        }
+        let b = mag(&b);
+        let (x, y) = (bi::<L>(&a), bu::<R>(&b));
+        check!(c, call(|| x.widening_mul_uint(&y)).map(|v: Int<W>| ib(&v)), &a * big(&b); a, b);
+    }
+}
+
+// ---------------------------------------------------------------- squaring (results are Uint)
+
+fn square<const L: usize, const W: usize>(c: &mut Ctx)
+where
+    Uint<L>: ConcatMixed<Uint<L>, MixedOutput = Uint<W>>,
+{
+    let bits = 64 * L as u32;
+    let mut vals = sinputs1(c, L);
+    // squares next to 2^BITS (the bound of the Uint<L> result): +-floor(sqrt(2^BITS - 1)) and neighbours
+    let r = big(&isqrt(&mask(bits)));
+    for d in [-2i32, -1, 0, 1, 2] {
+        vals.push(&r + d);
+        vals.push(-(&r + d));
+    }
+    for a in vals {
+        if c.done() {
+            return;
+        }
+        let x = bi::<L>(&a);
+        let sq = mag(&(&a * &a));
+        let fit = fits(&sq, bits);
+        check!(c, call(|| x.widening_square()).map(|v: Uint<W>| ub(&v)), sq.clone(); a);
+        check!(c, call(|| copt(x.checked_square())).map(|v| v.map(|v| ub(&v))), if fit { Some(sq.clone()) } else { None }; a);
+        check!(c, call(|| x.wrapping_square()).map(|v| ub(&v)), &sq & mask(bits); a);
+        check!(c, call(|| x.saturating_square()).map(|v| ub(&v)), if fit { sq.clone() } else { mask(bits) }; a);
+    }
+}
+
+// ---------------------------------------------------------------- sign / magnitude
+
+fn sign<const L: usize>(c: &mut Ctx) {
+    let bits = 64 * L as u32;
+    for a in sinputs1(c, L) {
+        if c.done() {
+            return;
+        }
+        let x = bi::<L>(&a);
+        let is_neg = neg_of(&a);
+        check!(c, call(|| x.abs_sign()).map(|(m, s)| (ub(&m), ccb(s))), (mag(&a), is_neg); a);
+        check!(c, call(|| x.abs()).map(|m| ub(&m)), mag(&a); a);
+        check!(c, call(|| ccb(x.is_negative())), is_neg; a);
+        check!(c, call(|| ccb(x.is_positive())), a.is_positive(); a);
+        check!(c, call(|| ccb(x.is_min())), a == smin(bits); a);
+        check!(c, call(|| ccb(x.is_max())), a == smax(bits); a);
+        check!(c, call(|| Zero::is_zero(&x)), a.is_zero(); a);
+        check!(c, call(|| One::is_one(&x)), a.is_one(); a);
+    }
+}
+
+fn new_from_abs_sign<const L: usize>(c: &mut Ctx) {
+    let bits = 64 * L as u32;
+    let mut ms = c.inputs1(L);
+    let h = pow2(bits - 1);
+    ms.extend([BigUint::zero(), BigUint::one(), h.clone(), &h - 1u32, &h + 1u32, &h - 2u32, &h + 2u32, mask(bits), mask(bits) - 1u32]);
+    ms.extend(specials(bits).iter().map(mag));
+    for m in ms {
+        if c.done() {
+            return;
+        }
+        let u = bu::<L>(&m);
+        for negative in [false, true] {
+            let v = if negative { -big(&m) } else { big(&m) };
+            let got = call(|| copt(Int::<L>::new_from_abs_sign(u, if negative { ConstChoice::TRUE } else { ConstChoice::FALSE }))).map(some_i);
+            check!(c, got, chk(&v, bits); m, negative);
+        }
+    }
+}
+
+// ---------------------------------------------------------------- resize / From<&Int>
+
+fn resize_to<const L: usize, const T: usize>(c: &mut Ctx, a: &BigInt, x: &Int<L>) {
+    // T >= L: the value is preserved (sign extension). T < L: the low T limbs are kept
+    // ("may lead to loss of information"), i.e. the value mod 2^(64 T) in two's complement.
+    let exp = wrap_signed(a, 64 * T as u32);
+    let t = T;
+    check!(c, call(|| x.resize::<T>()).map(|v| ib(&v)), exp.clone(); a, t);
+    check!(c, call(|| Int::<T>::from(x)).map(|v| ib(&v)), exp; a, t);
+}
+
+fn resize<const L: usize>(c: &mut Ctx) {
+    let vals = c.scaled(4, |c| sinputs1(c, L));
+    for a in vals {
+        if c.done() {
+            return;
+        }
+        let x = bi::<L>(&a);
+        resize_to::<L, 1>(c, &a, &x);
+        resize_to::<L, 2>(c, &a, &x);
+        resize_to::<L, 3>(c, &a, &x);
+        resize_to::<L, 4>(c, &a, &x);
+        resize_to::<L, 5>(c, &a, &x);
+        resize_to::<L, 8>(c, &a, &x);
+        resize_to::<L, 16>(c, &a, &x);
+        resize_to::<L, 17>(c, &a, &x);
+    }
+}
+
+// ---------------------------------------------------------------- primitives
+
+fn prim_values(c: &mut Ctx, bits: u32) -> Vec<i128> {
+    let (mn, mx) = (i128::MIN >> (128 - bits), i128::MAX >> (128 - bits));
+    let mut v = vec![mn, mn + 1, -2, -1, 0, 1, 2, mx - 1, mx, mn / 2, mx / 2, mx / 2 + 1];
+    for k in [7u32, 8, 15, 16, 31, 32, 63, 64, 65, 126] {
+        if k < bits - 1 {
+            v.extend([1i128 << k, (1i128 << k) - 1, -(1i128 << k), -(1i128 << k) - 1]);
+        }
+    }
+    for _ in 0..(c.iters / 8).max(16) {
+        let x = ((c.word() as u128) << 64 | c.word() as u128) as i128;
+        // sign-preserving reduction to the width, with a random bit length
+        let sh = 128 - 1 - c.below(bits as usize) as u32;
+        v.push(x >> sh);
+    }
+    v.retain(|x| *x >= mn && *x <= mx);
+    v
+}
+
+fn from_prim<const L: usize>(c: &mut Ctx) {
+    let bits = 64 * L as u32;
+    for n in prim_values(c, 8) {
+        let e = BigInt::from(n);
+        let p = n as i8;
+        check!(c, call(|| Int::<L>::from_i8(p)).map(|v| ib(&v)), e.clone(); n);
+        check!(c, call(|| Int::<L>::from(p)).map(|v| ib(&v)), e; n);
+    }
+    for n in prim_values(c, 16) {
+        let e = BigInt::from(n);
+        let p = n as i16;
+        check!(c, call(|| Int::<L>::from_i16(p)).map(|v| ib(&v)), e.clone(); n);
+        check!(c, call(|| Int::<L>::from(p)).map(|v| ib(&v)), e; n);
+    }
+    for n in prim_values(c, 32) {
+        let e = BigInt::from(n);
+        let p = n as i32;
+        check!(c, call(|| Int::<L>::from_i32(p)).map(|v| ib(&v)), e.clone(); n);
+        check!(c, call(|| Int::<L>::from(p)).map(|v| ib(&v)), e; n);
+    }
+    for n in prim_values(c, 64) {
+        let e = BigInt::from(n);
+        let p = n as i64;
+        check!(c, call(|| Int::<L>::from_i64(p)).map(|v| ib(&v)), e.clone(); n);
+        check!(c, call(|| Int::<L>::from(p)).map(|v| ib(&v)), e; n);
+    }
+    for n in prim_values(c, 128) {
+        let e = BigInt::from(n);
+        // an i128 that does not fit Int<1> has no correct image; `From<i128>` additionally
+        // requires two limbs ("not enough limbs")
+        if !fits_signed(&e, bits) {
+            continue;
+        }
+        check!(c, call(|| Int::<L>::from_i128(n)).map(|v| ib(&v)), e.clone(); n);
+        if L >= 2 {
+            check!(c, call(|| Int::<L>::from(n)).map(|v| ib(&v)), e; n);
+        }
+    }
+}
+
+fn into_prim(c: &mut Ctx) {
+    for x in c.inputs1(1) {
+        let a = tc(&x, 64);
+        let v: I64 = bi::<1>(&a);
+        check!(c, call(|| i64::from(v)).map(BigInt::from), a.clone(); a);
+        // and back
+        check!(c, call(|| I64::from_i64(i64::from(v))).map(|r| ib(&r)), a.clone(); a);
+    }
+    for x in c.inputs1(2) {
+        let a = tc(&x, 128);
+        let v: I128 = bi::<2>(&a);
+        check!(c, call(|| i128::from(v)).map(BigInt::from), a.clone(); a);
+        check!(c, call(|| I128::from_i128(i128::from(v))).map(|r| ib(&r)), a.clone(); a);
+    }
+}
+
+// ---------------------------------------------------------------- reinterpretation, words, constants
+
+fn reinterpret<const L: usize>(c: &mut Ctx) {
+    let bits = 64 * L as u32;
+    for p in c.inputs1(L) {
+        if c.done() {
+            return;
+        }
+        // p is the bit pattern, a its two's complement value
+        let a = tc(&p, bits);
+        let u = bu::<L>(&p);
+        let words = u.to_words();
+        let x = Int::<L>::from_words(words);
+        check!(c, call(|| ib(&u.as_int())), a.clone(); p);
+        check!(c, call(|| ub(x.as_uint())), p.clone(); p);
+        check!(c, call(|| ib(&Int::<L>::from_words(words))), a.clone(); p);
+        check!(c, call(|| words_to_big(&x.to_words())), p.clone(); p);
+        check!(c, call(|| words_to_big(x.as_words())), p.clone(); p);
+        check!(c, call(|| ib(&Int::<L>::new(x.to_limbs()))), a.clone(); p);
+        check!(c, call(|| ib(&Int::<L>::new(*x.as_limbs()))), a.clone(); p);
+        // the value defined by the words is the two's complement value: sign bit = top bit of the top word
+        check!(c, call(|| ccb(x.is_negative())), words[L - 1] >> 63 == 1; p);
+    }
+}
+
+fn constants<const L: usize>(c: &mut Ctx) {
+    let bits = 64 * L as u32;
+    let l = L;
+    check!(c, call(|| ib(&Int::<L>::MIN)), smin(bits); l);
+    check!(c, call(|| ib(&Int::<L>::MAX)), smax(bits); l);
+    check!(c, call(|| ib(&Int::<L>::ZERO)), BigInt::zero(); l);
+    check!(c, call(|| ib(&Int::<L>::ONE)), BigInt::one(); l);
+    check!(c, call(|| ib(&Int::<L>::MINUS_ONE)), BigInt::from(-1); l);
+    check!(c, call(|| ib(&Int::<L>::SIGN_MASK)), smin(bits); l);
+    check!(c, call(|| ib(&Int::<L>::FULL_MASK)), BigInt::from(-1); l);
+    check!(c, call(|| ib(&Int::<L>::default())), BigInt::zero(); l);
+    check!(c, call(|| ib(&<Int<L> as Zero>::zero())), BigInt::zero(); l);
+    check!(c, call(|| ib(&<Int<L> as One>::one())), BigInt::one(); l);
+    check!(c, call(|| ib(&<Int<L> as Constants>::ONE)), BigInt::one(); l);
+    check!(c, call(|| ib(&<Int<L> as Constants>::MAX)), smax(bits); l);
+    check!(c, call(|| Int::<L>::BITS), bits; l);
+    check!(c, call(|| <Int<L> as Bounded>::BITS), bits; l);
+    check!(c, call(|| Int::<L>::BYTES), 8 * L; l);
+    check!(c, call(|| Int::<L>::LIMBS), L; l);
+    // MIN - 1 and MAX + 1 are not representable; MIN = -MAX - 1
+    let none: Option<BigInt> = None;
+    check!(c, call(|| copt(Int::<L>::MAX.checked_add(&Int::ONE))).map(some_i), none.clone(); l);
+    check!(c, call(|| copt(Int::<L>::MIN.checked_add(&Int::MINUS_ONE))).map(some_i), none.clone(); l);
+    check!(c, call(|| copt(Int::<L>::MIN.checked_neg())).map(some_i), none; l);
+    check!(c, call(|| copt(Int::<L>::MAX.checked_neg())).map(some_i), Some(smin(bits) + 1); l);
+}
+
+// ---------------------------------------------------------------- table
+
+macro_rules! ii2 {
+    ($v:ident, $name:expr, $f:ident; $(($a:literal, $b:literal)),+ $(,)?) => {
+        $( $v.push(Case::new(format!("I{}::{} I{}xI{}", 64 * $a, $name, 64 * $a, 64 * $b), $f::<$a, $b>)); )+
+    };
+}
+macro_rules! ii3 {
+    ($v:ident, $name:expr, $rhs:expr, $f:ident; $(($a:literal, $b:literal)),+ $(,)?) => {
+        $( $v.push(Case::new(format!("I{}::{} I{}x{}{}", 64 * $a, $name, 64 * $a, $rhs, 64 * $b), $f::<$a, $b, { $a + $b }>)); )+
+    };
+}
+macro_rules! isq {
+    ($v:ident, $name:expr, $f:ident; $($a:literal),+ $(,)?) => {
+        $( $v.push(Case::new(format!("I{}::{}", 64 * $a, $name), $f::<$a, { 2 * $a }>)); )+
+    };
+}
 
 pub fn cases() -> Vec<Case> {
-    Vec::new()
+    let mut v = Vec::new();
+    icases!(v, "checked_add/overflowing_add/wrapping_add/CheckedAdd/WrappingAdd/+/+=/Wrapping/Checked", add; 1, 2, 3, 4, 8, 16);
+    icases!(v, "CheckedSub/WrappingSub/-/Wrapping -/Checked -", sub; 1, 2, 3, 4, 8, 16);
+    icases!(v, "overflowing_neg/wrapping_neg/checked_neg/wrapping_neg_if", neg; 1, 2, 3, 4, 8, 16);
+    ii2!(v, "split_mul/CheckedMul/*", mul; (1, 1), (2, 2), (3, 3), (4, 4), (8, 8), (16, 16), (1, 2), (2, 1), (2, 4), (4, 2), (3, 1), (1, 4), (4, 3), (4, 16), (16, 4), (16, 1));
+    icases!(v, "Checked<Int> * and *=", checked_wrapper_mul; 1, 2, 3, 4, 16);
+    ii3!(v, "widening_mul", "I", widening_mul; (1, 1), (2, 2), (3, 3), (4, 4), (8, 8), (16, 16), (1, 2), (2, 1), (1, 3), (3, 1), (2, 3), (3, 2), (4, 1), (1, 4), (4, 12), (12, 4), (15, 1));
+    icases2!(v, "split_mul_uint(_right)/CheckedMul<Uint>/checked_mul_uint_right/* Uint", mul_uint; (1, 1), (2, 2), (3, 3), (4, 4), (16, 16), (1, 2), (2, 1), (2, 4), (4, 2), (3, 1), (1, 4), (4, 3), (4, 16), (16, 4), (16, 1), (1, 16));
+    ii3!(v, "widening_mul_uint", "U", widening_mul_uint; (1, 1), (2, 2), (3, 3), (4, 4), (8, 8), (16, 16), (1, 2), (2, 1), (1, 3), (3, 1), (2, 3), (3, 2), (4, 1), (1, 4), (4, 12), (12, 4), (1, 15));
+    isq!(v, "widening_square/checked_square/wrapping_square/saturating_square", square; 1, 2, 3, 4, 8, 16);
+    icases!(v, "abs_sign/abs/is_negative/is_positive/is_min/is_max/is_zero/is_one", sign; 1, 2, 3, 4, 8, 16);
+    icases!(v, "new_from_abs_sign", new_from_abs_sign; 1, 2, 3, 4, 8, 16);
+    icases!(v, "resize/From<&Int> to 1,2,3,4,5,8,16,17 limbs", resize; 1, 2, 3, 4, 8, 16);
+    icases!(v, "from_i8..from_i128/From<i8..i128>", from_prim; 1, 2, 3, 4, 16);
+    case!(v, "i64::from(I64)/i128::from(I128)", into_prim);
+    icases!(v, "as_int/as_uint/from_words/to_words/as_words/new/to_limbs", reinterpret; 1, 2, 3, 4, 16);
+    icases!(v, "constants MIN/MAX/ZERO/ONE/MINUS_ONE/Default/Zero/One/Constants/Bounded", constants; 1, 2, 3, 4, 8, 16);
+    v
 }
